@@ -445,6 +445,19 @@ def run_c13(tier, seed, replay=None):
         pre = rnd.choice([[], [["eq", "y", 2]], [["eq", "x", 7]]])
         cases.append(mk_case([MEM], ["q", "r"], [["fresh", ["x", "y"], ["eq", "q", val]] + pre + [[op, "q"] + arms]], maxans=20, budget=2000,
                              what="an alternative's own names must be new and the names it does not bind must denote the enclosing variables"))
+    # named-field compound patterns with [] / _ / name sub-patterns against values whose fields are [], compounds or numbers:
+    # a [] sub-pattern matches only []
+    for _ in range(max(10, n // 12)):
+        op = rnd.choice(["match", "matche", "matcha"])
+        fa, fb = rnd.choice([1, "nil", ["list", 2]]), rnd.choice(["nil", ["comp", "Wrap", 3], 5, ["list", 1]])
+        pats = [["comp", "Named", rnd.choice(["x", "_", 1, "nil"]), "nil"], ["comp", "Named", "nil", rnd.choice(["y", "_"])],
+                ["comp", "Named", "x", "y"]]
+        rnd.shuffle(pats)
+        arms = [["arm", ["pats", pt], ["eq", "r", i + 1]] for i, pt in enumerate(pats[:rnd.randint(2, 3)])]
+        # (the value is built through a pattern as well: a named constructor does not parse in `==` position)
+        build = ["match", "q", ["arm", ["pats", ["comp", "Named", "u", "w"]], ["eq", "u", fa], ["eq", "w", fb]]]
+        cases.append(mk_case([MEM], ["q", "r"], [["fresh", ["x", "y", "u", "w"], build, [op, "q"] + arms]], maxans=20, budget=2000,
+                             what="a named-field compound pattern with a [] sub-pattern matches only a [] field"))
     # committed-choice matches: an arm whose pattern matches commits even when its body can never succeed (a literal false,
     # first, last or between other goals); later arms must not be tried
     for _ in range(n // 5):
